@@ -155,6 +155,22 @@ def h_cli_routing(ctx):
     _cmp(ctx, seq, par)
 
 
+def h_real_pool(ctx):
+    """The real ProcessPoolExecutor / as_completed (no stubs): a bridge run validating the in-process executor stub."""
+    import src.orchestrator.core as core
+    d = _proj()
+    n = ctx.pick("nfiles", (4, 12, 36))
+    w = ctx.pick("max_workers", (None, 2, 6))
+    files = [d / "src" / x for x in ORDER[:n]]
+    par = core.Orchestrator(project_root=d).lint_files_parallel(files, max_workers=w)
+    seq = core.Orchestrator(project_root=d).lint_files(files)
+    eff = w or min(core.DEFAULT_MAX_WORKERS, __import__("multiprocessing").cpu_count())
+    took = n >= 2 * eff
+    ctx.note("parallel_path_taken", took)
+    ctx.cover("parallel-path" if took else "sequential-fallback")
+    _cmp(ctx, seq, par)
+
+
 def h_roundtrip(ctx):
     from src.core.types import Severity, Violation
     line, col = ctx.int("line"), ctx.int("column")
@@ -193,6 +209,10 @@ def obligations(tier):
            bounds="cpu_count in [1,16] symbolic; target in {directory, files(1..5), dir+files}; recursive flag",
            timeout=600, workers=14, must_cover=("parallel-path", "sequential-fallback"),
            stubs=("InProcessExecutor", "reversed as_completed", "cpu_count symbolic")),
+        Ob(name="Br-real-process-pool", engine="pathex", harness=h_real_pool,
+           functions=["Orchestrator.lint_files_parallel with the real concurrent.futures.ProcessPoolExecutor / as_completed"],
+           bounds="forked (validation bridge, nothing symbolic): 4 / 12 / 36 files x max_workers in {None, 2, 6}; real worker processes, real completion order",
+           timeout=600, workers=1, must_cover=("parallel-path",)),
         Ob(name="K2-violation-dict-round-trip", engine="pathex", harness=h_roundtrip,
            functions=["Violation.to_dict", "Violation.from_dict"],
            bounds="line, column unbounded integers (symbolic); suggestion in {None, '', text, unicode}; message/path tables",
